@@ -20,6 +20,34 @@ EXPLANATION = (
 LEVEL_NOTE = "Undecided: exact content/line numbers of the written hunks; existence of the .rej when its directory is missing is by design skipped."
 
 
+def r11_every_hunk_is_tried(ck, rule="C13-R11"):
+    """The reject holds the hunks whose report is `Failed` - so in a normal application every hunk of a modifying file patch has to end
+    with the report of a trial (Applied or Failed), not with the `Skipped` it starts with: from drawing a hunk to recording its
+    report, every path runs through the loop over the fuzz levels (whose range 0..=min(..) is never empty, C02-R1).  A short cut that
+    records the untried report ("the file is missing, say so once") makes the later hunks vanish from the reject."""
+    from .. import pathconst
+    from .c02 import level_loop
+    am = ck.anchor("FilePatch::<'a, &'a [u8]>::apply_modify")
+    if am is None:
+        return
+    il = level_loop(ck, am, rule)
+    if il is None:
+        return
+    pushes = {bb for bb, t, c in calls_named(am, "FilePatchApplyReport::push_hunk_report") if not am.blocks[bb]["cleanup"]}
+    ck.floor(rule, "places where apply_modify records a hunk report", len(pushes), 1)
+    outer = [o for o in pt.iterator_loops(am) if "Hunk<" in o["iter_ty"] and il["head"] in o["body"] and pushes & set(o["body"])]
+    if not ck.require(len(outer) == 1, rule, "the trial loop over the hunks of apply_modify", "%d loops over the hunks contain the level loop" % len(outer), am.where()):
+        return
+    o = outer[0]
+    normal = lambda e, adt: "Normal" if (adt or "").endswith("ApplyMode") else None
+    r = pathconst.reach_under(am, lambda e: None, normal, blocked={il["head"]}, start=[o["some_edge"][1]])
+    untried = sorted(b for b in pushes if b in r and b in o["body"])
+    ck.require(not untried, rule, "in a normal application a hunk's report is recorded only after the hunk was tried",
+               "apply_modify can record the report a hunk starts with (Skipped) without running the trial loop for it in normal mode: the "
+               "hunk is neither applied nor failed, so it is missing from the reject although it was not applied", 
+               am.where(am.blocks[untried[0]]["term"]) if untried else am.where(), ok_detail="every path from drawing a hunk to push_hunk_report crosses the level loop")
+
+
 def run(ck):
     prog, cg = ck.prog, ck.cg
     rej = ck.anchor("rollback_and_save_rej_files")
@@ -29,6 +57,7 @@ def run(ck):
     if None in (rej, seq, apply_worker, wr):
         return
     r8_reject_removed_only_to_be_rewritten(ck, rej)
+    r11_every_hunk_is_tried(ck)
     # the reject loop walks every entry of the rejected patch: it is the rollback loop (C04-R3), which leaves only when the stack is
     # down to the earlier patches
     from . import c04 as _c04
